@@ -10,7 +10,7 @@ mkdir -p .work evidence replays
 if grep -rnE '\b(Admitted|admit|Axiom|Parameter|Conjecture|bypass_check)\b|Admit Obligations|Unset Guard Checking|Unset Positivity Checking|Unset Universe Checking' --include='*.v' coq | grep -v '(\*.*\*)' ; then
   echo "forbidden construct in the Coq development" >&2; exit 1
 fi
-(cd coq && coq_makefile -f _CoqProject -o Makefile >/dev/null && timeout 3000 make -j16 >.make.log 2>&1 || { tail -40 .make.log; exit 1; })
+(cd coq && { echo "-Q . KV"; ls */*.v | LC_ALL=C sort; } > _CoqProject && coq_makefile -f _CoqProject -o Makefile >/dev/null && timeout 3000 make -j16 >.make.log 2>&1 || { tail -40 .make.log; exit 1; })
 cp /repo/go.sum harness/go.sum
-(cd harness && timeout 3000 go build -tags verif -o ../.work/vh ./cmd/vh)
+for d in harness/cmd/*/; do p=$(basename $d); (cd harness && timeout 3000 go build -tags verif -o ../.work/vh-$p ./cmd/$p) || exit 1; done
 echo "setup ok"
